@@ -82,8 +82,8 @@ type Stats struct {
 	Counters map[string]int64    `json:"counters"`
 	Sets     map[string][]uint64 `json:"sets"` // distinct fingerprints per named set (bounded)
 	setIdx   map[string]map[uint64]struct{}
-	SimSteps int64   `json:"sim_steps"`
-	SimTime  float64 `json:"sim_time_s"`
+	SimSteps int64             `json:"sim_steps"`
+	SimTime  float64           `json:"sim_time_s"`
 	Samples  []json.RawMessage `json:"samples,omitempty"`
 	// TraceOn makes Event record a readable trace (replay/minimisation only).
 	TraceOn bool     `json:"-"`
@@ -197,7 +197,10 @@ type Batch struct {
 	Quick, Thorough int
 	// Rule is the non-triviality rule of the batch in words.
 	Rule string
-	// Level is the evidence level of this batch (exploration / fault_enumeration).
+	// Weight, when set on the batches of a property, splits the per-worker wall-clock budget
+	// between them in proportion (time a batch does not use passes on to the next one), so that a
+	// slow first batch cannot starve the following ones on a loaded machine. Without weights the
+	// batches share one budget in order.
 	Weight int
 }
 
